@@ -339,10 +339,12 @@ def report(ctx, sig, text, replay_obj):
     """Record a reproduced divergence: KNOWN-FINDING if listed, else VIOLATION."""
     for k in load_known(ctx.prop):
         if sig_matches(k["sig"], sig):
-            line = "KNOWN-FINDING: property=%s %s [%s]" % (ctx.prop, k["text"], sig)
-            if line not in ctx.known:
+            # one line per LISTED finding (the first matching signature is shown), however many divergences match it
+            if not any(x.startswith("KNOWN-FINDING: property=%s %s [" % (ctx.prop, k["text"])) for x in ctx.known):
+                line = "KNOWN-FINDING: property=%s %s [%s]" % (ctx.prop, k["text"], sig)
                 ctx.known.append(line)
                 print(line, flush=True)
+            ctx.count("known_finding_matches", 1)
             return False
     h = hashlib.sha256((sig + json.dumps(replay_obj, sort_keys=True, default=str)).encode()).hexdigest()[:10]
     rdir = os.path.join(VERIF, "replays")
